@@ -3,10 +3,13 @@
              outcome class and the route pattern the router selected (plus the whole route table for sweeps);
     kind 1 - a history of security-management operations, then a restart; observed: registry and ACL store
              before and after the restart, and the outcome of requests sent after it;
+    kind 3 - one token string with an exp (or nbf) a second or two ahead, the same requests sent before and after
+             that instant through the same process; observed per request: class, route, and on which side of the
+             boundary the driver's clock saw it;
     kind 2 - GET /datasets as the caller; observed: outcome class and the dataset names returned, next to the
              complete list the admin gets. *)
 From Coq Require Import List String Ascii Bool NArith.
-From DH Require Export Lib.CheckLib Model.Acl Model.Jwt Model.Gate Model.SecStore.
+From DH Require Export Lib.CheckLib Model.Acl Model.Jwt Model.Gate Model.SecStore Model.GateSeq.
 Import ListNotations.
 Open Scope string_scope.
 
@@ -31,7 +34,11 @@ Record tcase := {
   o_after : snapshot;
   o_all : list string;            (* kind 2: every dataset name, sorted (the admin's GET /datasets) *)
   o_listed : list string;         (* kind 2: what the caller's GET /datasets returned *)
-  o_list : treq                   (* kind 2: class and route of that request *)
+  o_list : treq;                  (* kind 2: class and route of that request *)
+  c_exp : option N;               (* kind 3: exp / nbf of the case's token, in model instants *)
+  c_nbf : option N;
+  c_seq : list (N * treq)         (* kind 3: requests in the order sent through one process, with the instant the
+                                     driver's clock put them at (0 = before the token's boundary, 10 = after) *)
 }.
 
 (** the five independent deviations; [all_variants] is ordered as VARIANTS in lib/props/c16.py *)
@@ -93,8 +100,32 @@ Definition predicted_list (dm : deny_mode) (c : tcase) : list string :=
   if is_admin (f_roles (c_facts c)) then o_all c
   else filter_datasets dm (match c_acl c with Some l => l | None => [] end) (o_all c).
 
+(** kind 3: the timed world of the case and the run of the sequence through a fresh process *)
+Definition tworld_of (c : tcase) : tworld :=
+  {| tw_cfg := c_cfg c; tw_routes := routes_compiled;
+     tw_tokens := fun s => if s =? c_tok c then {| tt_facts := c_facts c; tt_exp := c_exp c; tt_nbf := c_nbf c |}
+                           else {| tt_facts := garbage; tt_exp := None; tt_nbf := None |};
+     tw_acls := acls_kind0 c |}.
+
+Definition rq_of (c : tcase) (x : N * treq) : rq :=
+  {| rq_time := fst x; rq_auth := c_auth c; rq_method := q_method (snd x); rq_path := q_path (snd x) |}.
+
+Definition answer_agrees (a : outcome * string) (q : treq) : bool :=
+  N.eqb (class_of (fst a)) (q_class q) && (snd a =? q_route q).
+
+Fixpoint forall2b {A B} (f : A -> B -> bool) (l1 : list A) (l2 : list B) : bool :=
+  match l1, l2 with
+  | [], [] => true
+  | x :: l1', y :: l2' => if f x y then forall2b f l1' l2' else false
+  | _, _ => false
+  end.
+
+Definition seq_agrees (v : variant) (c : tcase) : bool :=
+  forall2b answer_agrees (gate_run CacheNone v (tworld_of c) (map (rq_of c) (c_seq c))) (map snd (c_seq c)).
+
 Definition agree (cv : cvariant) (c : tcase) : bool :=
-  if N.eqb (c_kind c) 0 then
+  if N.eqb (c_kind c) 3 then seq_agrees (cv_gate cv) c
+  else if N.eqb (c_kind c) 0 then
     forallb (req_agrees (cv_gate cv) (world_of c (acls_kind0 c)) (c_auth c)) (c_reqs c)
     && (if c_sweep c then route_table_agrees c else true)
   else if N.eqb (c_kind c) 2 then
@@ -123,8 +154,12 @@ Definition list_spec_ok (c : tcase) : bool :=
                          && acl_grants_b (match c_acl c with Some l => l | None => [] end) ("/datasets/" ++ d) "read")
                (o_listed c).
 
+Definition seq_spec_ok (c : tcase) : bool :=
+  forallb (fun x => req_spec_ok (world_at (tworld_of c) (fst x)) (c_auth c) (snd x)) (c_seq c).
+
 Definition spec_ok (c : tcase) : bool :=
-  if N.eqb (c_kind c) 0 then
+  if N.eqb (c_kind c) 3 then seq_spec_ok c
+  else if N.eqb (c_kind c) 0 then
     forallb (req_spec_ok (world_of c (acls_kind0 c)) (c_auth c)) (c_reqs c)
   else if N.eqb (c_kind c) 2 then
     req_spec_ok (world_of c (acls_kind0 c)) (c_auth c) (o_list c)
